@@ -350,6 +350,30 @@ fn tick_case(rep: &mut Report, args: &Args, case: u64) {
             let sig = if l0 != a0 { "C06:accumulator-root-differs-from-store-root" } else { "C06:accumulator-op-application-diverges" };
             rep.violation(sig, &format!("accumulator(pre)+ops root {} != store root {} after a committed tick of {} ops", verif_core::hex4(&accum), verif_core::hex4(&legacy), cm.patch.ops().len()), replay.clone());
         }
+        // the root (and the columnar snapshot) is a function of the content, not of the
+        // mutation history that produced it: rebuild the post-state's abstract content
+        // from scratch and compare
+        match cm.post.build(case % 4) {
+            Ok(fresh) => {
+                rep.count("post_states_rebuilt_from_content", 1);
+                let fresh_root = warp_core::verif::state_root(&fresh, &c.graph.root);
+                if fresh_root != legacy {
+                    rep.violation("C06:mutation-history-changes-root",
+                        &format!("the post-state of a committed tick ({} ops) and a fresh construction of exactly the same content have different state roots ({} vs {})", cm.patch.ops().len(), verif_core::hex4(&legacy), verif_core::hex4(&fresh_root)), replay.clone());
+                }
+                let (l1, a1) = roots(&cm.post_state, &c.graph.root);
+                if l1 != a1 {
+                    rep.violation("C06:accumulator-root-differs-on-mutated-store",
+                        "accumulator root built from the mutated post-state differs from its store root", replay.clone());
+                }
+                let a = wsc_round_trip(rep, &cm.post_state, &cm.post, &replay);
+                let b = wsc_round_trip(rep, &fresh, &cm.post, &replay);
+                if a != b {
+                    rep.violation("C06:wsc-writer-depends-on-mutation-history", "columnar snapshot bytes of a mutated store differ from those of a fresh construction of the same content", replay.clone());
+                }
+            }
+            Err(_) => rep.count("post_states_not_rebuildable", 1),
+        }
         if cm.patch.ops().len() >= 2 {
             rep.nontrivial(format!("{:?}", cm.patch.ops()).as_bytes());
         }
